@@ -110,6 +110,27 @@ func (g *G) l4(v6 bool, maxData int) (util.Message, []byte, uint8, string) {
 		}
 		break
 	}
+	// a payload this library keeps as opaque bytes may well be a proper message of a protocol it
+	// has a decoder for elsewhere (IGMP, TCP): half of those payloads are such messages
+	if (proto == protocol.Type_IGMP || proto == protocol.Type_TCP) && g.Bool("l4_structured_opaque") {
+		var pr Proto
+		if proto == protocol.Type_TCP {
+			pr = g.TCPSeg()
+		} else {
+			switch g.Pick("igmp_kind", 3) {
+			case 0:
+				pr = g.IGMPv12()
+			case 1:
+				pr = g.IGMPv3Q()
+			default:
+				pr = g.IGMPv3Rep()
+			}
+		}
+		if len(pr.Wire) <= maxData {
+			g.Label("opaque_payload_is_" + pr.Kind)
+			return util.NewBuffer(cp(pr.Wire)), pr.Wire, proto, "other"
+		}
+	}
 	b, w := g.other("l4_other", maxData)
 	return b, w, proto, "other"
 }
